@@ -1295,11 +1295,39 @@ def g_c20(r, tier, env, Ls):
             ops.append(["dump", "0"])
         ops += problem_ops(r, p, 0)
         cs.append(Case(hist_line(p, ops), dict(p), "hist-errors", oracle=oracle_hist_errors, tags=["setters", "integ=%d" % p["integ"]]))
+    # documented errors outside builder/State: expectation written down here independently of the model
+    def E(line, expect, tag):
+        cs.append(Case(line, dict(expect=expect), "errc", oracle=oracle_errc, tags=["errc", tag]))
+    for nr in range(0, 5):
+        E(f"errc surface {nr}", "err MICM_Process 1" if nr > 1 else f"errc ok reactants={nr}", "surface")
+    for k, ex in [(0, "ok"), (1, "err MICM_Species 1"), (2, "err MICM_Species 1"), (3, "err MICM_Species 1"), (4, "err MICM_Species 1"), (5, "err MICM_Species 2")]:
+        E(f"errc property {k}", ex, "property")
+    for _ in range(30):
+        L = r.pick([0, 3]); rows = r.rng(0, 5); c0 = r.rng(0, 4)
+        lens = [c0 if r.chance(0.8) else r.rng(0, 4) for _ in range(rows)]
+        ok = all(x == lens[0] for x in lens) if lens else True
+        E(" ".join(["errc", "ragged", str(L), str(rows)] + [str(x) for x in lens]), (f"errc ok {rows}x{lens[0] if lens else 0}") if ok else "err MICM_Matrix 2", "ragged")
+    for _ in range(20):
+        L = r.pick([0, 3]); cols = r.rng(0, 5); ln = r.rng(0, 7)
+        E(f"errc rowassign {L} {cols} {ln}", "errc ok" if ln >= cols else "err MICM_Matrix 1", "rowassign")
+    for blocks in (1, 2, 3):
+        E(f"errc missingblock {blocks}", "errc ok 1" if blocks == 1 else "err MICM_Matrix 4", "missingblock")
+    for _ in range(20):
+        n = r.rng(1, 4); x = r.rng(0, 5); y = r.rng(0, 5)
+        E(f"errc builderelem {n} {x} {y}", "errc ok 1" if (x < n and y < n) else "err MICM_Matrix 3", "builderelem")
     # matrix errors are covered through the sparse probes (ElementOutOfRange, ZeroElementAccess)
     for _ in range(40 if tier == "quick" else 500):
         line, meta = gen_sparse_case(r, Ls)
         cs.append(Case(line, meta, "sparse", oracle=oracle_sparse, tags=["matrix_errors"]))
     return cs
+
+def oracle_errc(c, out):
+    exp = c.meta["expect"]
+    if exp == "ok":
+        return None if (out or "").startswith("errc ok") else f"expected success, got '{(out or '')[:80]}'"
+    if out != exp:
+        return f"expected '{exp}', implementation gave '{(out or '')[:80]}'"
+    return None
 
 EXPECT_BAD = {"bad_species": "err MICM_State 1", "bad_conc_len": "err MICM_State 3", "bad_label": "err MICM_State 2",
               "bad_param_len": "err MICM_State 5", "bad_unsafe_cells": "err MICM_State 5", "bad_unsafe_params": "err MICM_State 4"}
